@@ -300,7 +300,22 @@ def rand_cases(rnd: random.Random, n: int):
             a, b = sh[0]
             files.append({"services": {a: {"component": {"n": {rnd.choice(["a", "b.c", "zz"]): rnd.choice([7, "late", None])}}}}})
             flag = b
-        cases.append({"id": f"r{i}", "files": files, "sets": [rand_set() for _ in range(rnd.choice([0, 0, 1, 2, 3]))],
+        sets = [rand_set() for _ in range(rnd.choice([0, 0, 1, 2, 3]))]
+        if rnd.random() < 0.12:
+            # the same key given twice with an overlapping key (its parent or a child) in between: overrides apply one after the other
+            def mk(path, val):
+                return {"path": path, "val": val, "text": key_text(path) + "=" + val_text(val)}
+            child, parent = ["component", "n", "a"], ["component", "n"]
+            sets = ([mk(child, 5), mk(parent, {"k": 1}), mk(child, "str")] if rnd.random() < 0.5 else
+                    [mk(parent, {"k": 1}), mk(child, 5), mk(parent, {"z": 2})])
+        if sh:
+            # --set is applied in place to the loaded document: an override addressed into a mapping that two services share through
+            # a YAML alias reaches both of them. The statement does not say which of the two readings is meant, so such overrides
+            # are not generated (unspecified corner, DESIGN I.8)
+            shared_names = {x for pair in sh for x in pair}
+            sets = [s_ for s_ in sets if not ("path" in s_ and len(s_["path"]) >= 4 and s_["path"][0] == "services" and s_["path"][1] in shared_names
+                                               and s_["path"][2:4] == ["component", "n"])]
+        cases.append({"id": f"r{i}", "files": files, "sets": sets,
                       "flag": flag, "env": rnd.choice(["", "", "", "two", "default"])})
     return cases
 
